@@ -44,7 +44,9 @@ def gen_case(rng):
     log = fstree.mutate_tree(rng, after, n=1)
     # (anchored patterns name a directory at the top of the dir: artifact only: a nested one of the same name stays in)
     excl = rng.choice([None, None, ["*.txt"], ["lib"], ["x", "*.bin"], ["/lib"], ["/src", "/a"], ["/x", "/b"], ["/dist/", "/zz"],
-                      [".*"], ["."], [".*", "*.bin"]])        # (hidden-file patterns match '.', the directory itself: D10c)
+                      [".*"], ["."], [".*", "*.bin"], ["d"], ["d", "/lib"], ["d/"],     # ("d" is the artifact's own name)
+                      # (git's rule: a pattern matching the file itself beats a later negated DIRECTORY pattern)
+                      ["*.txt", "!lib/"], ["*.bin", "!src/", "!a/"], ["x", "!lib/"]])        # (hidden-file patterns match '.', the directory itself: D10c)
     return {"tree": fstree.spec_json(spec), "after": fstree.spec_json(after), "log": log, "exclude": excl}
 
 
@@ -64,6 +66,13 @@ def pinned_cases():
             else:
                 after["vendor"][1]["lib"][1]["build"][1]["new.c"] = f("n")
             out.append({"tree": tree, "after": after, "log": [["pinned", edit]], "exclude": excl})
+    # git's precedence: a pattern that matches the FILE itself is not undone by a later negated directory pattern
+    t2 = {"keep": d(**{"a.txt": f("a"), "b.c": f("b"), "deep": d(**{"m.txt": f("m")})}),
+          "src": d(keep=d(**{"n.txt": f("n")}), **{"x.c": f("x")}), "top.txt": f("t")}
+    for excl in (["*.txt", "!keep/"], ["*.txt", "!keep/", "!src/keep/"], ["*.c", "!src/"]):
+        after = copy.deepcopy(t2)
+        after["keep"][1]["a.txt"] = f("a!")          # an EXCLUDED file is edited: the digest stays
+        out.append({"tree": t2, "after": after, "log": [["pinned", "edit-excluded"]], "exclude": excl})
     return out
 
 
@@ -78,6 +87,11 @@ def impl_dir(path, excl, lstrip=None):
         return {"ok": r["dir:" + path]["sha256"], "keys": sorted(r)}
     except Exception as e:  # noqa
         return {"err": "Crash:" + type(e).__name__}
+
+
+def rl_ost(arts, base):
+    import in_toto.runlib as rl
+    return rl.record_artifacts_as_dict(arts, base_path=base) if base else rl.record_artifacts_as_dict(arts)
 
 
 def run(ctx):
@@ -127,6 +141,38 @@ def run(ctx):
         blob = bytes(ctx.rng.choice(b"\r\n\x00ab\xff") if ctx.rng.random() < 0.3 else ctx.rng.randrange(256) for _ in range(size))
         ost.append({"ref": ref, "content": content, "blob": blob.decode("latin-1"), "use_base": ctx.rng.random() < 0.5})
     import in_toto.runlib as rl
+    # history: the commit object a ref points to is rewritten in place (same object name, other bytes), and a second
+    # repository holds an object of the same name with other bytes: every recording is the digest of the bytes as they
+    # are NOW, in THAT repository
+    ost_hist_bad = []
+    with fstree.scratch(ctx, "osthist") as hroot:
+        hname = "ab" + "cd" * 31
+        for repo, blob in (("r1", b"first"), ("r2", b"other repository")):
+            os.makedirs(os.path.join(hroot, repo, "refs", "heads"), exist_ok=True)
+            os.makedirs(os.path.join(hroot, repo, "objects", hname[:2]), exist_ok=True)
+            open(os.path.join(hroot, repo, "refs", "heads", "main"), "w").write(hname + "\n")
+            open(os.path.join(hroot, repo, "objects", hname[:2], hname[2:] + ".commit"), "wb").write(blob)
+        seq = [("r1", None, b"first"), ("r1", b"rewritten in place", b"rewritten in place"), ("r2", None, b"other repository"),
+               ("r1", None, b"rewritten in place")]
+        for how in ("base", "cwd"):
+            for repo, rewrite, want in seq:
+                if rewrite is not None:
+                    open(os.path.join(hroot, repo, "objects", hname[:2], hname[2:] + ".commit"), "wb").write(rewrite)
+                try:
+                    if how == "base":
+                        r = rl_ost(["ostree:main"], os.path.join(hroot, repo))
+                    else:
+                        with fstree.in_dir(os.path.join(hroot, repo)):
+                            r = rl_ost(["ostree:main"], None)
+                    got = r["ostree:main"]["sha256"]
+                except Exception as e:  # noqa
+                    got = "raised " + type(e).__name__
+                if got != hashlib.sha256(want).hexdigest():
+                    ost_hist_bad.append("ostree:main of repository %s (%s): recorded %s, the commit object now holds %r" % (
+                        repo, how, got[:16], want))
+            open(os.path.join(hroot, "r1", "objects", hname[:2], hname[2:] + ".commit"), "wb").write(b"first")
+    for pr in ost_hist_bad[:3]:
+        ctx.violation("OSTree digest depends on an earlier recording: " + pr, {"kind": "ostree_history", "what": pr})
     ost_impl = []
     for o in ost:
         with fstree.scratch(ctx, "ost") as root:
